@@ -719,7 +719,7 @@ property C19: layout DSC
 // C18: the control-paragraph reader, the clearsign front end and the checksum / file-list line parsers are total
 // (no panic, termination, a value xor an error, frames) - the same obligations as for C07 / C10 / C11, listed here
 // because C18 names control/parse.go, control/filehash.go and control/changes.go
-property C18: lemma idxOf_prefix, (*ParagraphReader).Next, (*ParagraphReader).All, (*Paragraph).Set, (*Paragraph).Update,
+property C18: nosharedwrites, lemma idxOf_prefix, (*ParagraphReader).Next, (*ParagraphReader).All, (*Paragraph).Set, (*Paragraph).Update,
   (*ParagraphReader).decodeClearsig, NewParagraphReader, (*FileHash).unmarshalControl, (*MD5FileHash).UnmarshalControl,
   (*SHA1FileHash).UnmarshalControl, (*SHA256FileHash).UnmarshalControl, (*SHA512FileHash).UnmarshalControl,
   (*FileListChangesFileHash).UnmarshalControl
